@@ -128,3 +128,23 @@ func (k Keeper) removeNotWithdrawableFromFulfillmentQueue(
 
 	return nil
 }
+
+// removeFromFulfillmentQueue removes the participation index from the fulfillment queue of the odds.
+func (k Keeper) removeFromFulfillmentQueue(
+	ctx sdk.Context,
+	orderBookUID, oddsUID string,
+	participationIndex uint64,
+) {
+	boe, found := k.GetOrderBookOddsExposure(ctx, orderBookUID, oddsUID)
+	if !found {
+		return
+	}
+	queue := make([]uint64, 0, len(boe.FulfillmentQueue))
+	for _, pn := range boe.FulfillmentQueue {
+		if pn != participationIndex {
+			queue = append(queue, pn)
+		}
+	}
+	boe.FulfillmentQueue = queue
+	k.SetOrderBookOddsExposure(ctx, boe)
+}
